@@ -1,12 +1,13 @@
 #!/bin/bash
-# tools/round4.sh Cxx : confirm the round-4 seeds of one property (scratch worktree /tmp/r4_Cxx), remove the worktree,
-# run the quick check of the property against every kept seed; log in /var/tmp/r4logs/Cxx.log
-p=$1
+# tools/round4.sh Cxx [tag suffix] : confirm the seeds of one property written in the scratch worktree /tmp/<tag>_Cxx (default
+# tag r4, suffix d), remove the worktree, run the quick check of the property against every kept seed (ONE self-test at a
+# time per call; do not start more than three of these at once); log in /var/tmp/r4logs/<tag>_Cxx.log
+p=$1; tag=${2:-r4}; suf=${3:-d}
 mkdir -p /var/tmp/r4logs
 {
-  /verif/tools/verify_batch.sh /tmp/r4_$p ${p}d
-  git -C /repo worktree remove --force /tmp/r4_$p
+  /verif/tools/verify_batch.sh /tmp/${tag}_$p ${p}${suf}
+  git -C /repo worktree remove --force /tmp/${tag}_$p
   args=""
-  for d in /verif/seeded/${p}d_*; do args="$args --seed seeded/$(basename $d)"; done
-  cd /verif && VERIF_NO_ESCALATION=0 python3 tools/selftest.py --jobs 3 $args
-} > /var/tmp/r4logs/$p.log 2>&1
+  for d in /verif/seeded/${p}${suf}_*; do args="$args --seed seeded/$(basename $d)"; done
+  cd /verif && python3 tools/selftest.py --jobs 1 $args
+} > /var/tmp/r4logs/${tag}_$p.log 2>&1
